@@ -152,12 +152,7 @@ def check_accessors(ctx, tu, info):
             ok = ok and len(cal) == 1 and (f.callee(cal[0]) or {}).get('q', '').endswith('<eventpp::anydata_internal_::LargeData>')
             ctx.ob('C17.A3', f, 'isLargerData() is exactly "the table is LargeData\'s"', ok, detail=F.show(fm))
         elif f.name == 'getAddress':
-            rets = f.return_nodes()
-            vals = []
-            for r in rets:
-                alts = f.value_alternatives(f.kids(r)[0])
-                for v in alts:
-                    vals.append((r if len(alts) == 1 else v, v))      # an arm of `c ? a : b` is a result site of its own
+            vals = f.result_sites()      # returns, arms of `c ? a : b`, or assignments of a result variable
             inline_ret = [r for r, v in vals if 'buffer' in fields_in(path(f, f.strip_all_casts(v))) and not any(f.is_call(d) and (f.callee(d) or {}).get('name') == 'getAddress' for d in [v] + f.descendants(v))]
             heap_ret = [r for r, v in vals if any(f.is_call(d) and (f.callee_key(d) or '').endswith('LargeData::getAddress') for d in [v] + f.descendants(v))]
             ok = len(inline_ret) == 1 and len(heap_ret) == 1
